@@ -24,3 +24,16 @@ def lastIdx (l : List Ev) (p : Ev → Bool) : Option Nat :=
   (l.zipIdx.filter (fun x => p x.1)).getLast?.map (·.2)
 
 end Mfi.Gen.Skel
+
+namespace Mfi.Gen.Skel
+
+/-- number of conditional blocks enclosing the LAST call satisfying `p` (tables `<handler>_cond`) -/
+def condAt (l : List Ev) (c : List Nat) (p : Ev → Bool) : Option Nat :=
+  match lastIdx l p with
+  | some i => c[i]?
+  | none => none
+
+/-- every listed call of the handler is unconditional (not inside any if / match arm / loop / closure) -/
+def allUnconditional (c : List Nat) : Bool := c.all (· == 0)
+
+end Mfi.Gen.Skel
